@@ -41,12 +41,18 @@ CLAIMED = {
    text="Per committed request the reference model yields the expected notification batch; a subscriber reading through GetNotifications is cut and resumed with the last offset it saw at seeded points (one across a restart into a new term), with a hook widening the reader's check-then-wait window; order, exactly-one-batch-per-request, content, no internal keys, no loss/duplicate across resumptions are checked, and a stalled delivery is confirmed by logical evidence (it resumes only when one more request is committed). Trimming is exercised on a bare DB with a mocked clock: every batch inside retention must still be delivered.",
    note="RF=1 (nothing uncommitted exists here; delivery of uncommitted requests and resume on a different node belong to the replication engines). Delivery of the last batch is judged at quiescence.",
    technique="reference-model monitor over the notification stream + hook-widened interleaving + resumption oracle"),
+ "C11": dict(engine="kvorder", level="exploration",
+   text="Comparator laws, agreement with an independent span-list implementation and the engine contract (Separator in [a,b), Successor >= a, AbbreviatedKey consistent, all in slash order) on generated tuples from an alphabet built around '/'; then real Pebble-backed KVs are loaded with data sets spanning tens of 64KiB blocks and every stored key / floor / ceiling / lower / higher / range scan is compared with a reference sorted by the independent order, before and after flushes and overwrites.",
+   note="Pebble's own correctness for a coherent comparer is trusted; empty probe keys are skipped for comparison gets (an empty bound means unbounded for the engine iterators).",
+   technique="algebraic law checking on generated tuples + differential test of the engine against a sorted reference"),
 }
 
 NOT_APPLICABLE = {}
 DEFAULT_NA = "check not built yet in this session (work in progress)"
 
 ENGINES = [
+ {"name": "kvorder", "path": "harness/engines/kvorder", "serves_properties": ["C11"],
+  "kind_free_text": "key-order laws and Pebble-backed KV vs sorted reference"},
  {"name": "kvmodel", "path": "harness/engines/kvmodel", "serves_properties": ["C12", "C13", "C14", "C15", "C16", "C17"],
   "kind_free_text": "RF=1 leader (real WAL/Pebble/callbacks) vs sequential reference model; hostile protobuf-level requests"},
  {"name": "coordpure", "path": "harness/engines/coordpure", "serves_properties": ["C18", "C19"],
